@@ -14,6 +14,7 @@ raw login = the same with challenge+1 (client -> server) and challenge-1 (server
 both modulo 2^32."""
 import os, hashlib
 import vlib
+import mainlib
 from vlib import hexs
 
 M32 = 1 << 32
@@ -572,7 +573,9 @@ def run_impl(ctx, exes, cases, tag):
 
 
 def check(rep):
-    hs = ('c19', 'c19cli', 'c19srv')
+    hs = ('c19', 'c19cli', 'c19srv', 'climain', 'srvmain')
+    vlib.HARNESSES['climain'] = mainlib.CLIMAIN
+    vlib.HARNESSES['srvmain'] = mainlib.SRVMAIN
     ctx = vlib.prepare(rep, harnesses=hs, sanitize=True)
     cases, stats = gen_cases(rep.seed, rep.tier)
     rep.cov['rule'] = ('corpus first (tests/login.c vector, RFC 1321 suite); login_calculate: every boundary challenge '
@@ -664,6 +667,7 @@ def check(rep):
         if d is not None:
             ctx.broken.append(('correspondence', 'model and implementation disagree on case %r: impl=%r model=%r' % (
                 cases[d][:300], impl[d][:200], mod[d][:200])))
+    mainlib.password_stage(rep, ctx)
     if not rep.violations:
         ctx.report_broken()
     return rep
